@@ -58,20 +58,24 @@ HIST_RULE = ("one case = one seeded history of 5-60 conflict-seeking {kind} requ
              "sequential histories now and then try to start a second instance on the same directory, and (attestations) send a batch carrying an exact-capacity short-domain entry whose panic is the death of the daemon; distinct = distinct history; non-trivial = at least two signatures were released. "
              "Oracle: every released signature is entered in a per-key ledger and compared pairwise with all earlier ones{strict}.")
 q, t = tiers(250, 60, 20000, 1200)
-q["layers"] = [dict(runs=250, budget_s=60, params="")] * 15 + [dict(runs=25, budget_s=60, params="mode=free")] + native([dict(runs=25, budget_s=60, params="mode=free")])
-t["layers"] = [dict(runs=20000, budget_s=1200, params="")] * 15 + [dict(runs=3000, budget_s=1200, params="mode=free")] + native([dict(runs=3000, budget_s=1200, params="mode=free")])
+q["layers"] = [dict(runs=250, budget_s=60, params="")] * 14 + [dict(runs=25, budget_s=60, params="mode=free")] + native([dict(runs=25, budget_s=60, params="mode=free")]) + native([dict(runs=30, budget_s=60, params="mode=daemon")] * 2)
+t["layers"] = [dict(runs=20000, budget_s=1200, params="")] * 14 + [dict(runs=3000, budget_s=1200, params="mode=free")] + native([dict(runs=3000, budget_s=1200, params="mode=free")]) + native([dict(runs=1500, budget_s=1200, params="mode=daemon")] * 2)
+q["require_probes"] = t["require_probes"] = ["daemon_processes_started", "daemon_requests"]
 plan("C01", "exploration", HIST_RULE.format(kind="attestation", unit="target", extra="single and batched, batches repeating a key", strict=" (double vote, surround either way)"), q, t)
 q, t = tiers(250, 60, 20000, 1200)
+q["layers"] = [dict(runs=250, budget_s=60, params="")] * 14 + native([dict(runs=30, budget_s=60, params="mode=daemon")] * 2)
+t["layers"] = [dict(runs=20000, budget_s=1200, params="")] * 14 + native([dict(runs=1500, budget_s=1200, params="mode=daemon")] * 2)
+q["require_probes"] = t["require_probes"] = ["daemon_processes_started", "daemon_requests"]
 plan("C02", "exploration", HIST_RULE.format(kind="proposal", unit="slot", extra="proposer and foreign domains", strict=" (same slot/different block; in sequential histories slots must strictly increase in release order)"), q, t)
 
 q, t = tiers(120, 60, 6000, 1200)
-def c03_layers(runs, kill_runs, power_runs, full_runs, budget):
+def c03_layers(runs, kill_runs, power_runs, full_runs, budget, daemon_runs=30):
     return ([dict(runs=runs, budget_s=budget, params="")] * 11 + [dict(runs=kill_runs, budget_s=budget, params="mode=kill")] + native([dict(runs=kill_runs, budget_s=budget, params="mode=kill")])
             + [dict(runs=power_runs, budget_s=budget, params="mode=power")] + native([dict(runs=power_runs, budget_s=budget, params="mode=power")]) + [dict(runs=full_runs, budget_s=budget, params="mode=diskfull")]
-            + native([dict(runs=full_runs, budget_s=budget, params="mode=diskfull")]))
-q["layers"] = c03_layers(120, 64, 12, 24, 60)
-t["layers"] = c03_layers(6000, 3200, 600, 1200, 1200)
-q["require_probes"] = ["crash_exact", "probe_crash_between_approval_and_signing", "sign_seam_checks", "ack_durability_checks", "crash_real_process_kill", "crash_power_loss_images", "released_lists_checked_pairwise"]
+            + native([dict(runs=full_runs, budget_s=budget, params="mode=diskfull")]) + native([dict(runs=daemon_runs, budget_s=budget, params="mode=daemon")] * 2))
+q["layers"] = c03_layers(120, 64, 12, 24, 60, 30)
+t["layers"] = c03_layers(6000, 3200, 600, 1200, 1200, 1500)
+q["require_probes"] = ["crash_exact", "probe_crash_between_approval_and_signing", "sign_seam_checks", "ack_durability_checks", "crash_real_process_kill", "crash_power_loss_images", "released_lists_checked_pairwise", "daemon_processes_started", "crash_real_daemon_killed_between_requests"]
 t["require_probes"] = q["require_probes"] + ["crash_torn", "crash_after-write", "probe_crash_before_store", "probe_crash_between_store_and_approval", "sign_seam_image_checks"]
 plan("C03", "exploration",
      "one case = one seeded run: 1-4 phases of 1-5 concurrent conflict-seeking attestation/proposal requests (single and batched) under the seeded scheduler, "
@@ -132,10 +136,10 @@ plan("C06", "fault_enumeration",
      q, t, crash_is_violation=True)
 
 q, t = tiers(200, 60, 10000, 900)
-q["layers"] = [dict(runs=200, budget_s=60, params="")] * 15 + [dict(runs=48, budget_s=60, params="mode=edge")] + native([dict(runs=48, budget_s=60, params="mode=edge")])
-t["layers"] = [dict(runs=10000, budget_s=900, params="")] * 15 + [dict(runs=48, budget_s=900, params="mode=edge")] + native([dict(runs=48, budget_s=900, params="mode=edge")])
+q["layers"] = [dict(runs=200, budget_s=60, params="")] * 15 + [dict(runs=48, budget_s=60, params="mode=edge")] + native([dict(runs=48, budget_s=60, params="mode=edge")]) + native([dict(runs=12, budget_s=60, params="mode=daemon")])
+t["layers"] = [dict(runs=10000, budget_s=900, params="")] * 15 + [dict(runs=48, budget_s=900, params="mode=edge")] + native([dict(runs=48, budget_s=900, params="mode=edge")]) + native([dict(runs=200, budget_s=900, params="mode=daemon")])
 q["require_complete"] = t["require_complete"] = [("edge_cases", "edge_total")]
-q["require_probes"] = t["require_probes"] = ["edge_exit_signed_for_listed_source", "edge_exit_refused_for_unlisted_source"]
+q["require_probes"] = t["require_probes"] = ["edge_exit_signed_for_listed_source", "edge_exit_refused_for_unlisted_source", "daemon_exit_signed_for_listed_source", "daemon_exit_refused"]
 plan("C05", "exploration",
      "one case = one (endpoint, domain class, source listed?, admin list size) combination; a seeded run draws an administrator list (empty / one / many, incl. look-alike strings), "
      "4-15 requests over {generic, multisign, attestation, attestation batch, proposal} with a domain per position from {attester, proposer, voluntary-exit, other spec types, "
@@ -222,11 +226,11 @@ REAL_W5 = ("REAL: services/api/grpc (gRPC server, TLS 1.3 with RequireAndVerifyC
 q, t = tiers(50, 120, 50, 300)
 q["layers"] = all_matrix_layers(104, 120, mw=14) + [dict(runs=10, budget_s=120, params="mode=conc"), dict(runs=12, budget_s=120, params="mode=resume"), dict(runs=40, budget_s=120, params="mode=portreuse")]
 t["layers"] = all_matrix_layers(104, 300, mw=14) + [dict(runs=200, budget_s=300, params="mode=conc"), dict(runs=200, budget_s=300, params="mode=resume"), dict(runs=2000, budget_s=300, params="mode=portreuse")]
-q["layers"] = native(q["layers"]) + q["layers"]
-t["layers"] = native(t["layers"]) + t["layers"]
+q["layers"] = native(q["layers"]) + q["layers"] + native([dict(runs=8, budget_s=120, params="mode=daemon")])
+t["layers"] = native(t["layers"]) + t["layers"] + native([dict(runs=120, budget_s=300, params="mode=daemon")])
 q["exhaustive"] = t["exhaustive"] = True
 q["require_complete"] = t["require_complete"] = [("matrix_cases", "matrix_total")]
-q["require_probes"] = t["require_probes"] = ["untrusted_calls", "permitted_calls_served", "concurrent_identity_requests", "resume_attempts_against_other_authority", "portreuse_identity_changes_on_one_source_address"]
+q["require_probes"] = t["require_probes"] = ["untrusted_calls", "permitted_calls_served", "concurrent_identity_requests", "resume_attempts_against_other_authority", "portreuse_identity_changes_on_one_source_address", "daemon_credential_calls", "daemon_permitted_calls_served"]
 plan("C19", "other",
      "complete table: server configuration {authority configured, no authority configured} x every method of the five registered gRPC services (16) x caller credential {plaintext, TLS without "
      "client certificate, self-signed with a permitted name, other authority with a permitted name, authority from the host trust store with a permitted name, certificate chained through a "
@@ -270,6 +274,9 @@ PERM_RULE = ("a seeded run draws a permission table (1-4 clients x 1-4 ordered e
              "char; account patterns likewise or empty; 1-3 operation items from All/None/op/~op in drawn order and case) over a population with near-miss names (Wallet1, Wallet10, Wallet2, xWallet2, "
              "wallet3; acc1, acc10, Acc2, xacc1, val-1) on a real single-instance stack incl. process, account and wallet managers; ")
 q, t = tiers(120, 60, 6000, 900)
+q["layers"] = [dict(runs=120, budget_s=60, params="")] * 14 + native([dict(runs=40, budget_s=60, params="mode=daemon")] * 2)
+t["layers"] = [dict(runs=6000, budget_s=900, params="")] * 14 + native([dict(runs=2000, budget_s=900, params="mode=daemon")] * 2)
+q["require_probes"] = t["require_probes"] = ["daemon_permission_decisions", "daemon_operations_served"]
 plan("C07", "exploration",
      PERM_RULE + "then 10-39 operations {generic sign, multisign, attest, attest batch, propose, list, lock/unlock account, create, wallet lock/unlock} by name or public key from known, unknown, "
      "upper-cased and empty client names. distinct = distinct (operation, wallet, account, reference verdict, anonymous?) tuple; non-trivial = all. Oracle: an operation that was carried out "
@@ -277,7 +284,9 @@ plan("C07", "exploration",
      "after every refusal the slashing-protection export is unchanged.",
      q, t, real_vs_stub=REAL_W2)
 q, t = tiers(120, 60, 6000, 900)
-q["require_probes"] = t["require_probes"] = ["accounts_created_through_dirk", "nonempty_listings", "completeness_obligations"]
+q["layers"] = [dict(runs=120, budget_s=60, params="")] * 14 + native([dict(runs=40, budget_s=60, params="mode=daemon")] * 2)
+t["layers"] = [dict(runs=6000, budget_s=900, params="")] * 14 + native([dict(runs=2000, budget_s=900, params="mode=daemon")] * 2)
+q["require_probes"] = t["require_probes"] = ["accounts_created_through_dirk", "nonempty_listings", "completeness_obligations", "daemon_listings", "daemon_completeness_obligations"]
 plan("C18", "exploration",
      PERM_RULE + "then 3-10 listing rounds with 1-3 requested paths each (wallet only, wallet/regex, alternation, unknown wallet, empty, malformed regex, other case, distributed wallet), by known, unknown "
      "and empty clients, interleaved with account creation through Dirk. distinct = distinct (paths, result size, anonymous?); non-trivial = all. Oracle (sets): every returned account exists, "
@@ -309,3 +318,10 @@ plan("C11", "exploration",
      "the export (rules API, and dirk --export-slashing-protection after shutdown) states exactly the highest slot / source / target per key; the export imports into an empty instance with exit 0 "
      "and that instance answers a shuffled probe sequence (every value +-1, zero, genesis) exactly as the restarted original.",
      q, t, real_vs_stub=REAL_W3, needs_dirk=True)
+
+# W7 (the dirk binary as a daemon process) needs the binary built from the tree under test.
+for _p in ("C01", "C02", "C03", "C05", "C07", "C18", "C19"):
+    PLANS[_p]["needs_dirk"] = True
+# Before the repair of main.go the order of a client's entries followed Go's map iteration: a replay may need several starts of the daemon.
+PLANS["C07"]["replay_attempts"] = 12
+PLANS["C18"]["replay_attempts"] = 12
